@@ -593,7 +593,7 @@ func init() {
 			runTracebackNil(p, r)
 			runRLockWrite(p, r, "RLOCK-WRITE")
 		},
-		MinCounts: map[string]int{"PANIC-SINK": 15, "VARIADIC-INDEX": 2, "RESULT-INDEX": 8, "NIL-ARG": 25, "TRACEBACK-NIL": 2},
+		MinCounts: map[string]int{"PANIC-SINK": 15, "VARIADIC-INDEX": 2, "RESULT-INDEX": 5, "NIL-ARG": 25, "TRACEBACK-NIL": 2},
 		Trusted:   append([]string{"the table of argument-panicking library functions and the audit table in sa/internal/rules/c17.go"}, trustedBase...),
 		Controls: []core.Control{
 			{Name: "unlocked-pattern-cache", Rule: "GLOBAL-MAP-WRITE", File: "pkg/mods/re/re.go", Old: "func makePattern(p string, posix, longest bool) (*regexp.Regexp, error) {\n\tpattern, err := compile(p, posix)\n\tif err != nil {\n\t\treturn nil, err\n\t}\n", New: "var patternCache = map[string]*regexp.Regexp{}\n\nfunc makePattern(p string, posix, longest bool) (*regexp.Regexp, error) {\n\tif c, ok := patternCache[p]; ok && !posix && !longest {\n\t\treturn c, nil\n\t}\n\tpattern, err := compile(p, posix)\n\tif err != nil {\n\t\treturn nil, err\n\t}\n\tif !posix && !longest {\n\t\tpatternCache[p] = pattern\n\t}\n", Fire: true, Want: "patternCache"},
